@@ -451,6 +451,7 @@ func (o *oracle) after(s *sim, sp *runSpec, pre *preState, outcome string) (stri
 				case ok && b.key.kid() == e.key.kid() && (b.st == "V" || b.st == "M") && e.st == "R" && legit(e.key):
 				case !ok && o.cfg[e.key.kid()] && e.st == "V":
 				case !ok && o.cfg[e.key.kid()] && e.st == "R" && legit(e.key):
+				case !ok && o.cfg[e.key.kid()] && e.key.revoked() && e.st == "R": // admin pre-seeded REVOKE form, re-seeded as a marker
 				case !ok && !stOK && hasKey(pre.liveBefore, e.key.id, e.key.flags) && e.st == "V":
 				case ok && b.key.kid() == e.key.kid() && (b.st == "V" || b.st == "M") && e.st == "V" && !stOK:
 				default:
